@@ -205,6 +205,9 @@ class DATADumpFile(DATADump):
 	def append_msg(self, msg):
 		# Generate raw bytes and write
 		msg_raw = self.dump_msg(msg)
+		# A preceding parse_msg() / parse_all() may have left the position
+		# somewhere inside the capture: always write at the end
+		self.f.seek(0, 2)
 		self.f.write(msg_raw)
 
 	# Writes a list of messages at the end of the capture
